@@ -25,7 +25,7 @@ def rich_image(rng, ft, **geom):
     bps, spc = geom.get("bps", 512), geom.get("spc", 1)
     bpc = bps * spc
     hi = clusters + 1
-    pool = list(range(3 if ft == 32 else 2, hi + 1))
+    pool = list(range(8 if ft == 32 else 2, hi + 1))       # FAT32: clusters 2..7 are left for the root directory chain
     rng.shuffle(pool)
 
     def take(n, force_max=False):
@@ -90,6 +90,8 @@ def rich_image(rng, ft, **geom):
     kw = dict(geom)
     kw.update(files=files, root_extra=root_extra, label="FOREIGN", rootent=geom.get("rootent", 64))
     if ft == 32:
+        kw["hi_bits"] = {c: rng.choice([0xF, 0xA, 0x1]) for c in (c1[:2] + sc[:1] + [1])}
+    if ft == 32:
         kw.pop("rootent", None)
     img, info = fatspec.build(ft, **kw)
     # place the inner file's clusters by hand (it lives in the sub-directory)
@@ -120,7 +122,7 @@ def rich_image(rng, ft, **geom):
 
 GEOMS = [dict(ft=12, clusters=300), dict(ft=12, clusters=4084, rootent=64), dict(ft=16, clusters=4085, rootent=64), dict(ft=12, clusters=200, bps=1024, spc=2, nf=1),
          dict(ft=12, clusters=340, bps=4096, spc=1, nf=3, rootent=128), dict(ft=16, clusters=4200, spc=4, rsvd=5, rootent=112), dict(ft=32, clusters=400, spc=1),
-         dict(ft=12, clusters=339, rootent=16), dict(ft=12, clusters=680, rootent=16), dict(ft=12, clusters=1022, rootent=32), dict(ft=12, clusters=60, spc=64),
+         dict(ft=12, clusters=339, rootent=64), dict(ft=12, clusters=680, rootent=64), dict(ft=12, clusters=1022, rootent=32), dict(ft=12, clusters=60, spc=64),
          dict(ft=16, clusters=4090, nf=1, rsvd=3, rootent=32), dict(ft=12, clusters=4084, rootent=512, spc=2)]
 GEOMS_T = [dict(ft=16, clusters=65524, rootent=512), dict(ft=32, clusters=65525), dict(ft=32, clusters=66000, spc=8, bps=512), dict(ft=12, clusters=120, spc=128),
            dict(ft=16, clusters=5000, bps=2048, spc=2, rootent=64)]
